@@ -245,9 +245,9 @@ func buildPregel(r *lib.Rng, z *zoo) (*object, error) {
 		cbPar = cbPar[:2]
 	}
 	shared := []compose.Option{
-		compose.WithLambdaOption(lopt{Val: "S"}).DesignateNode("a", par[0]),
-		compose.WithCallbacks(sharedHandler("so")),
-		compose.WithCallbacks(sharedHandler("sd")).DesignateNode(par[0]),
+		sharedLopt("S").DesignateNode("a", par[0]),
+		sharedCb("so"),
+		sharedCb("sd").DesignateNode(par[0]),
 	}
 	// what was built, for the model
 	d := &dGraph{max: 30}
@@ -411,9 +411,9 @@ func buildDag(r *lib.Rng, z *zoo) (*object, error) {
 		cbPar = append(cbPar, all[1])
 	}
 	shared := []compose.Option{
-		compose.WithLambdaOption(lopt{Val: "S"}).DesignateNode(all[0]),
-		compose.WithLambdaOption(lopt{Val: "SG"}),
-		compose.WithCallbacks(sharedHandler("sd")).DesignateNode(all[len(all)-1]),
+		sharedLopt("S").DesignateNode(all[0]),
+		sharedLopt("SG"),
+		sharedCb("sd").DesignateNode(all[len(all)-1]),
 	}
 	mshared := []string{opT(0, "S", []string{all[0]}), opT(0, "SG")}
 	shared = spare(shared) // spare capacity: an append to the options inside a run must not reach it
@@ -504,8 +504,8 @@ func buildWorkflow(r *lib.Rng, z *zoo) (*object, error) {
 		return nil, err
 	}
 	shared := []compose.Option{
-		compose.WithLambdaOption(lopt{Val: "S"}).DesignateNode("l", "m"),
-		compose.WithCallbacks(sharedHandler("so")),
+		sharedLopt("S").DesignateNode("l", "m"),
+		sharedCb("so"),
 	}
 	cd := codec[WIn, WOut]{chunkIn: oneChunk[WIn], concatOut: lastOf[WOut], render: func(o WOut) string { return fmt.Sprintf("WOut{%s|%s|%s}", o.ID, o.P, o.Q) }}
 	d := &dGraph{dag: true}
